@@ -12,7 +12,7 @@ Built on the C14 models (imported read-only): L1 `syncPass`/`asyncEffect`/`stale
 * `killRun` (the goroutine of `remoteRunner.Kill`) and `onUnkillable` — runner.go / worker.go;
 * `fslRun` (the loop of `fixStaleLocks`) — scheduler/fix_stale_locks.go;
 * `asyncEffectW` (a refused latch schedules a wake-up) — scheduler/run_queue.go `uuidLock`;
-* `CPool` (`Pool.Create`, its background goroutine, `Unallocated`, `AtQuota`) — pool.go.
+* `CPool` (`Pool.Create`, its background goroutine, `Unallocated`, `AtQuota`), `runSync` — pool.go.
 
 The liveness transition system is Model/C15_Live.lean.
 -/
@@ -167,6 +167,26 @@ def create (p : CPool) (r : CreateRes) : CPool × Bool :=
   | some p1 => (p1.ret r, true)
 
 end CPool
+
+/-! ### pool.go: `runSync` -/
+
+/-- how one `getInstancesAndSync()` ends: `nil`, or an error (the cloud's `Instances()` failed, or the
+list throttle is still in its hold-off) -/
+inductive ListRes where
+  | ok | err
+deriving DecidableEq, Repr, Inhabited
+
+inductive SyncEv where
+  | list (r : ListRes)     -- getInstancesAndSync() returned r (after `Pool.sync` when r = ok)
+  | rearm                  -- timer.Reset(wp.syncInterval)
+deriving DecidableEq, Repr, Inhabited
+
+/-- one firing of `runSync`'s timer: list (and sync), log an error if any, re-arm the timer — on
+every path -/
+def runSyncIter (r : ListRes) : List SyncEv := [.list r, .rearm]
+
+/-- the loop over the answers of the successive listings -/
+def runSync (rs : List ListRes) : List SyncEv := rs.flatMap runSyncIter
 
 /-! ### runner.go: the goroutine started by `Kill` -/
 
